@@ -69,6 +69,7 @@ type c04Gen struct {
 	nStage   int
 	dynamic  bool
 	symlinks bool
+	forceOut string // type of the next new stage's first output
 }
 
 var c04OutTypes = []string{"txt", "txt", "txt[]", "FS", "FS[]", "map<txt>", "map<FS>", "string", "map", "int", "int[]"}
@@ -248,6 +249,9 @@ func (g *c04Gen) newStage(ins []c04Param, byArg string, noMapOuts bool) *c04Stag
 	g.p.Stages = append(g.p.Stages, st)
 	for k := 1 + g.r.Intn(3); k > 0; k-- {
 		ty := hx.Pick(g.r, c04OutTypes)
+		if g.forceOut != "" {
+			ty, g.forceOut = g.forceOut, ""
+		}
 		// (a call mapped over a typed map whose stage has a map output makes
 		// mrp panic "map<map> is not allowed" when it serializes the final
 		// state; not a VDR matter, so such programs are not generated)
@@ -356,6 +360,9 @@ func (g *c04Gen) genPipe(name string, depth int, ins []c04Param) *c04PipeDef {
 	ncalls := 3 + g.r.Intn(4)
 	if depth > 0 {
 		ncalls = 2 + g.r.Intn(2)
+	}
+	if g.dynamic && depth == 0 && g.r.Intn(2) == 0 {
+		avail = g.retainedDynamicMap(pl, avail)
 	}
 	madeSub := false
 	for c := 0; c < ncalls; c++ {
@@ -524,11 +531,76 @@ func (g *c04Gen) genPipe(name string, depth int, ins []c04Param) *c04PipeDef {
 			}
 		}
 		if len(cands) > 0 {
-			pl.Retain = []string{hx.Pick(g.r, cands)}
+			if r := hx.Pick(g.r, cands); len(pl.Retain) == 0 || pl.Retain[0] != r {
+				pl.Retain = append(pl.Retain, r)
+			}
 			g.feat("pipeline_retain")
 		}
 	}
 	return pl
+}
+
+// retainedDynamicMap: a stage mapped over a collection whose size is only known
+// at run time (so all forks but the first are cloned while the pipestance
+// runs), usually volatile, whose file output is named by a stage-level or a
+// pipeline-level retain AND is consumed by another stage.
+func (g *c04Gen) retainedDynamicMap(pl *c04PipeDef, avail []c04Src) []c04Src {
+	// the stage that decides the number of forks
+	g.forceOut = "int[]"
+	a := g.newStage([]c04Param{{"i", "int"}}, "", false)
+	if a.Split {
+		a.Retain = nil
+	}
+	phase := "main"
+	if a.Split {
+		phase = "join"
+	}
+	var m map[string]interface{}
+	json.Unmarshal(a.Files[phase].Outs, &m)
+	n := 2 + g.r.Intn(2)
+	xs := []interface{}{}
+	for k := 1; k <= n; k++ {
+		xs = append(xs, k)
+	}
+	m["o0"] = xs
+	a.Files[phase].Outs, _ = json.Marshal(m)
+	for _, r := range a.Retain {
+		if r == "o0" {
+			a.Retain = nil
+		}
+	}
+	pl.Calls = append(pl.Calls, &c04CallDef{Callee: a.Name, Binds: []string{"7"}, InNames: []string{"i"}})
+	for _, o := range a.Outs {
+		avail = append(avail, c04Src{a.Name + "." + o.Name, o.Ty})
+	}
+	// the mapped producer
+	g.forceOut = hx.Pick(g.r, []string{"txt", "txt", "FS", "txt[]"})
+	b := g.newStage([]c04Param{{"i", "int"}}, "i", false)
+	call := &c04CallDef{Callee: b.Name, Binds: []string{"split " + a.Name + ".o0"}, InNames: []string{"i"}, Mapped: true}
+	if g.r.Intn(3) > 0 {
+		call.Volatile = true
+	}
+	if g.r.Bool() {
+		b.Retain = []string{"o0"}
+		g.feat("dynamic_map_stage_retain_consumed")
+	} else {
+		b.Retain = nil
+		pl.Retain = append(pl.Retain, b.Name+".o0")
+		g.feat("dynamic_map_pipeline_retain_consumed")
+	}
+	pl.Calls = append(pl.Calls, call)
+	for _, o := range b.Outs {
+		if c04Liftable(o.Ty) {
+			avail = append(avail, c04Src{b.Name + "." + o.Name, o.Ty + "[]"})
+		}
+	}
+	// a consumer of the retained output
+	c := g.newStage([]c04Param{{"a0", b.Outs[0].Ty + "[]"}}, "", false)
+	pl.Calls = append(pl.Calls, &c04CallDef{Callee: c.Name, Binds: []string{b.Name + ".o0"}, InNames: []string{"a0"}})
+	for _, o := range c.Outs {
+		avail = append(avail, c04Src{c.Name + "." + o.Name, o.Ty})
+	}
+	return avail
 }
 
 func c04Generate(r *hx.Rng, stagecmd string, dynamic, symlinks bool) *c04Prog {
